@@ -29,8 +29,10 @@ def _run_one(args):
     env = dict(os.environ)
     env['PYTHONPATH'] = VERIF + os.pathsep + env.get('PYTHONPATH', '')
     env['PYTHONWARNINGS'] = 'ignore'
+    # CrossHair's default per-path budget grows with the square root of the condition budget; the replication code needs
+    # ~15 s for ONE path over a symbolic name, which made two contracts vacuous ("Unable to meet precondition")
     cmd = [PY, '-m', 'crosshair', 'check', '--report_all', '--per_condition_timeout', str(timeout),
-           '%s:%d' % (path, line)]
+           '--per_path_timeout', str(max(10, timeout // 2)), '%s:%d' % (path, line)]
     t0 = time.time()
     try:
         r = subprocess.run(cmd, capture_output=True, text=True, env=env, timeout=timeout * 2 + 60, cwd=VERIF)
@@ -38,6 +40,36 @@ def _run_one(args):
     except subprocess.TimeoutExpired as e:
         out = 'TIMEOUT'
     return name, out, time.time() - t0
+
+
+def _write_twins(modname, path, todo):
+    """Reachability twins (vacuity guard): for every contract a function with the same signature, preconditions and
+    `raises:` lines that calls the contract and returns True under `post: not _`.  CrossHair must REFUTE each twin, i.e.
+    exhibit symbolic arguments for which the contract runs to completion under the engine; when it cannot (every path ends
+    in an unsupported operation such as a C function rejecting a symbolic string) the contract says nothing under E2."""
+    import tempfile
+    with open(path) as f:
+        tree = ast.parse(f.read())
+    out = ['from %s import *' % modname, 'import %s as _m' % modname, 'from %s import _errors' % modname
+           if hasattr(importlib.import_module(modname), '_errors') else '', '']
+    for n in tree.body:
+        if isinstance(n, ast.FunctionDef) and n.name in todo:
+            doc = ast.get_docstring(n) or ''
+            keep = [l.strip() for l in doc.splitlines() if l.strip().startswith(('pre:', 'raises:'))]
+            argnames = [a.arg for a in n.args.args]
+            out.append('def _twin%s(%s) -> bool:' % (n.name, ast.unparse(n.args)))
+            out.append('    """')
+            out.extend('    ' + l for l in keep)
+            out.append('    post: not _')
+            out.append('    """')
+            out.append('    _m.%s(%s)' % (n.name, ', '.join(argnames)))
+            out.append('    return True')
+            out.append('')
+    d = tempfile.mkdtemp(prefix='verif-xh-twins-')
+    tp = os.path.join(d, 'twins_%s.py' % modname.replace('.', '_'))
+    with open(tp, 'w') as f:
+        f.write('\n'.join(out))
+    return d, tp
 
 
 def run_contracts(modname, names=None, timeout=30, nproc=16):
@@ -48,9 +80,16 @@ def run_contracts(modname, names=None, timeout=30, nproc=16):
     lines = _lines(path)
     todo = [n for n in (names or sorted(lines)) if n.startswith('_c') and n in lines and not n.endswith('_pre')]
     jobs = [(path, n, lines[n], timeout) for n in todo]
+    twin_dir, twin_path = _write_twins(modname, path, todo)
+    tlines = _lines(twin_path)
+    jobs += [(twin_path, '_twin' + n, tlines['_twin' + n], timeout) for n in todo]
     results = []
+    twins = {}
     with cf.ThreadPoolExecutor(max_workers=nproc) as pool:
         for name, out, dt in pool.map(_run_one, jobs):
+            if name.startswith('_twin'):
+                twins[name[5:]] = (bool(re.search(r'error: false when calling', out)), round(dt, 1), out[-300:])
+                continue
             res = {'name': name, 'wall_s': round(dt, 1), 'raw': out[-1500:]}
             m = re.search(r'error: (.*?) when calling (.*?)(?: \(which returns (.*)\))?$', out, re.M)
             if 'Confirmed over all paths' in out:
@@ -70,6 +109,10 @@ def run_contracts(modname, names=None, timeout=30, nproc=16):
                 res['verdict'] = 'unknown'
                 res['message'] = out.strip()[-500:]
             results.append(res)
+    import shutil
+    shutil.rmtree(twin_dir, ignore_errors=True)
+    for res in results:
+        res['twin'] = twins.get(res['name'], (False, 0.0, 'twin not run'))
     return mod, results
 
 
@@ -117,6 +160,13 @@ def run_e2(rep, modname, timeout, names=None, sweep=None, key=None):
             es['exhaustive'] = False
         else:
             rep.harness_errors.append({'message': 'crosshair error in %s: %s' % (r['name'], r.get('message')),
+                                       'section': 'crosshair'})
+        reached, twin_s, twin_raw = r.get('twin', (True, 0.0, ''))
+        rec['engine_completes_a_symbolic_path'] = reached
+        es['solver_s'] = es.get('solver_s', 0.0) + twin_s
+        if not reached and r['verdict'] not in ('counterexample', 'confirmed'):
+            rep.harness_errors.append({'message': 'vacuity: CrossHair completes no symbolic path of %s (reachability twin not refuted: %s)'
+                                                  % (r['name'], twin_raw.strip().splitlines()[-1][:200] if twin_raw.strip() else ''),
                                        'section': 'crosshair'})
         es['conditions'].append(rec)
         rep.notes.append('crosshair %-44s %-14s %5.1fs %s' % (r['name'], r['verdict'], r['wall_s'],
